@@ -6,7 +6,9 @@ from vt import core, tlaval
 from vt import profile_util as pu
 
 LONG = '"Mozilla/5.0 (Windows NT 10.0; Win64; x64) AppleWebKit/537.36 (KHTML, like Gecko) Chrome/120.0.0.0 Safari/537.36 Edg/120.0.0.0 trailing words here"'
-NASTY = [LONG, '"a b"', '"a  b"', '"a\tb"', r'"\\\\"', r'"dir\\\\\\"', r'"a\\\"b\\\\"', '"a\\"b"', '"x;y{z}#w"', '"\\\\"', '"line\\nbreak"', '"\\x41\\u0042"', '"it\'s"', '""', '"tab\\t"', '"/a /b,/c"', '"%windir%\\\\sys"']
+NASTY = [LONG, '"a b"', '"a  b"', '"a\tb"', r'"\\\\"', r'"dir\\\\\\"', r'"a\\\"b\\\\"', '"a\\"b"', '"x;y{z}#w"', '"\\\\"', '"line\\nbreak"', '"\\x41\\u0042"', '"it\'s"', '""', '"tab\\t"', '"/a /b,/c"', '"%windir%\\\\sys"',
+         # code points that text tooling likes to treat specially (byte order mark, no-break / zero-width space, line separators)
+         '"\ufeffx"', '"a\ufeffb\ufeff"', '"nbsp\u00a0here"', '"zero\u200bwidth"', '"ls\u2028ps\u2029"', '"nel\u0085"', '"\U0001F600"', '"a\r\nb"', '"\r"']
 
 
 def model_cfg(q):
@@ -52,6 +54,25 @@ def roundtrip(toks):
     return {"kind": "ok", "text": t[1]}
 
 
+def roundtrip_after_modification(toks):
+    """state carried between loads: the text is loaded, the loaded profile is extended through the builder API, and the same
+    untouched text is then loaded again - its round trip must not know about the first object"""
+    from dissect.cobaltstrike import c2profile
+
+    text = " ".join(toks) + "\n"
+    o = core.guarded(c2profile.C2Profile.from_text, text, seconds=60)
+    if o[0] == "ok":
+        try:
+            o[1].set_option("sleeptime", "31337")
+            blk = c2profile.HttpStagerBlock()
+            blk.set_option("uri_x86", "/added")
+            o[1].set_config_block("http_stager", blk)
+            o[1].as_text()
+        except Exception:  # noqa: BLE001  (what the modification itself does is not the subject here)
+            pass
+    return roundtrip(toks)
+
+
 def roundtrip_pair(job):
     _tag, a, b = job
     return roundtrip(a), roundtrip(b)
@@ -89,6 +110,13 @@ def run(ctx):
     with mp.get_context("fork").Pool(14) as pool:
         results = pool.map(roundtrip, jobs, chunksize=16)
         pair_results = pool.map(roundtrip_pair, pair_jobs, chunksize=4)
+        mod_jobs = [tuple(s["toks"]) for s in rng.sample(chosen, min(len(chosen), 60 if q else 600))]
+        mod_results = pool.map(roundtrip_after_modification, mod_jobs, chunksize=4)
+    for toks, res in zip(mod_jobs, mod_results):
+        ctx.evaluations += 1
+        if res["kind"] != "ok":
+            ctx.violation("profile text round trip depends on what was done with an earlier load of the same text", {"op": "C2Profile.from_text", "failed": "history_" + res["kind"], "token": None},
+                          {"tokens": list(toks)[:40], **{k: v for k, v in res.items() if k != "text"}})
     for (_p, a, b), (ra, rb) in zip(pair_jobs, pair_results):
         for toks, res in ((a, ra), (b, rb)):
             ctx.evaluations += 1
